@@ -107,8 +107,9 @@ func specFor(sc scenario) *common.Spec {
 		spec.MAX_PER_EPOCH_ACTIVATION_CHURN_LIMIT = 2
 		spec.MAX_WITHDRAWALS_PER_PAYLOAD = 2
 		spec.MAX_VALIDATORS_PER_WITHDRAWALS_SWEEP = 8
-		spec.EPOCHS_PER_HISTORICAL_VECTOR = 32
-		spec.SLOTS_PER_HISTORICAL_ROOT = 32
+		// vector lengths that are not powers of two: the padding of the Merkle tree beyond the vector's length matters
+		spec.EPOCHS_PER_HISTORICAL_VECTOR = 24
+		spec.SLOTS_PER_HISTORICAL_ROOT = 24
 		spec.MIN_SEED_LOOKAHEAD = 1
 		spec.MAX_SEED_LOOKAHEAD = 2
 		spec.HYSTERESIS_QUOTIENT = 2
